@@ -443,6 +443,10 @@ Lemma euclid_packed_same_len : forall u v : list R, length u = length v ->
     euclid (packR u) (packR v) = euclid_s u v.
 Proof. intros u v H. unfold euclid, euclid_s. rewrite sqdist_packed_same_len_R by exact H. reflexivity. Qed.
 
+Lemma euclid_packed_general : forall u v : list R,
+    euclid (packR u) (packR v) = sqrt (r_sqdist (zpadR u) (zpadR v)).
+Proof. intros. unfold euclid. rewrite sqdist_packed_R. reflexivity. Qed.
+
 Lemma cosine_packed_same_len : forall u v : list R, length u = length v ->
     cosine (packR u) (packR v) = cosine_s u v.
 Proof.
